@@ -251,7 +251,7 @@ pub fn run(ctx: &Ctx) -> i32 {
                     ctx.count("observer_mode_runs_(free_generator)", 1);
                     // the multi-threaded implementation has its own traversals and its own per-pass
                     // renewal of the draws (every solve builds a thread pool: a subset of the games)
-                    if method != RefMethod::Full && iters == 4 && (gi % 16 == 0 || ctx.thorough() && tree.num_internal() <= 2 || tree.num_internal() > 6 && tree.num_internal() < 12) {
+                    if method != RefMethod::Full && iters == 4 && (gi % (if ctx.thorough() { 16 } else { 64 }) == 0 || ctx.thorough() && tree.num_internal() <= 2 || tree.num_internal() > 6 && tree.num_internal() < 12) {
                         let v = check_run(ctx, tree, method, spec, iters, BTreeMap::new(), Fallback::Free, shared, 2);
                         tally(ctx, &v);
                         ctx.count("observer_mode_runs_of_the_multi_threaded_implementation", 1);
@@ -261,7 +261,13 @@ pub fn run(ctx: &Ctx) -> i32 {
         }
         // every draw history up to the horizon
         if tree.num_internal() <= 3 {
-            for (method, iters) in [(RefMethod::Sampled, 3u64), (RefMethod::External, 2)] {
+            // (the third entry: the multi-threaded implementation with a single-task frontier, on a
+            // subset of the games: every solve builds a thread pool)
+            let multi = gi % (if ctx.thorough() { 16 } else { 512 }) == 0;
+            for (method, iters, threads) in [(RefMethod::Sampled, 3u64, 1usize), (RefMethod::External, 2, 1), (RefMethod::External, 2, 2), (RefMethod::Sampled, 2, 2)] {
+                if threads > 1 && !multi {
+                    continue;
+                }
                 let game = build(tree).unwrap();
                 let al = match align(tree, &game) {
                     Ok(al) => al,
@@ -272,9 +278,16 @@ pub fn run(ctx: &Ctx) -> i32 {
                 };
                 let spec = ParamSpec::Default;
                 let stats = explore(
-                    |decider| guarded(|| run_impl(tree, &game, method, iters, 0.0, 1, None, spec.implementation(), decider)),
+                    |decider| {
+                        if threads == 1 {
+                            guarded(|| run_impl(tree, &game, method, iters, 0.0, 1, None, spec.implementation(), decider))
+                        } else {
+                            crate::multi::gated(|| guarded(|| run_impl(tree, &game, method, iters, 0.0, threads, Some(1), spec.implementation(), decider)))
+                        }
+                    },
                     |log, _prob, res| {
-                        let replay = case_json(tree, method, spec, iters, Fallback::First, log);
+                        let mut replay = case_json(tree, method, spec, iters, Fallback::First, log);
+                        replay["threads"] = json!(threads);
                         ctx.add(&ctx.transitions, log.len() as u64);
                         let v = match res {
                             Ok(Ok(out)) => compare_opt(ctx, tree, method, spec, iters, &out, log, &al, &replay, shared),
@@ -284,7 +297,7 @@ pub fn run(ctx: &Ctx) -> i32 {
                             }
                         };
                         tally(ctx, &v);
-                        ctx.count("histories_explored_exhaustively", 1);
+                        ctx.count(if threads == 1 { "histories_explored_exhaustively" } else { "histories_explored_exhaustively_(multi-threaded implementation)" }, 1);
                     },
                     2048,
                 );
